@@ -51,6 +51,7 @@ RULE = ("correspondence: (prng) seeds x sequences of next/randint/choice/shuffle
         "earlier problems unmutated (deep copies), same-seed reproducibility across processes and on reused builder objects, "
         "incl. SegmentationBuilder2D patterns.  A case is non-trivial when it is a distinct (kind, input) pair.")
 TRUSTED = [
+    "the fail-closed pure-integer translator harness/pyint_translate.py (XorShift.__init__ / next, randint prelude and acceptance test -> Gen/PyIntRandom.v on every run; theorems *_from_source)",
     "IEEE-754: an integer < 2^53 divided by 2^32 is exact in binary64, so srandom.random() == numerator / 2^32 exactly (checked with fractions.Fraction on every draw)",
     "the acceptance test random() < exp((next - current) / temperature) is a Section variable of the model; the OCaml driver instantiates it with the same binary64 operations and the same libm exp as CPython",
     "synthetic callbacks (hash of the printed problem) are written twice: harness/pC19.py::Callbacks and coq/extract/C19/driver.ml",
